@@ -108,6 +108,7 @@ func H_C03_history() {
 	var fars [2][]vFARSpec
 	var qers [2][]vQERSpec
 	var pdrs [2][]vPDRSpec
+	var created [2]bool
 	seq := uint32(1)
 	check := func(tag string) { vCheckBessImage(e.pc.store.GetAllSessions(), srv, tag) }
 	establish := func(k int) bool {
@@ -155,7 +156,11 @@ func H_C03_history() {
 				u.action = ActionBuffer | ActionNotify
 				fars[k][1] = u
 				ies = append(ies, u.update())
-			case 2: // create a PDR + FAR
+			case 2: // create a PDR + FAR (once per session: rule ids are unique within a session, PFCP 5.2.1)
+				if created[k] {
+					return
+				}
+				created[k] = true
 				np := vPDRSpec{uplink: true, id: 3, prec: 50, teid: 0x4000 + uint32(k), n3: [4]byte{198, 18, 0, 1}, ue: [4]byte{10, 250, 0, byte(5 + k)}, farID: 3, qerIDs: pdrs[k][0].qerIDs,
 					sdf: "permit out tcp from 9.9.9.9 443 to assigned"} // same QER list as the session's other PDRs (re-marking of session QERs is C09)
 				nf := vFARSpec{id: 3, action: ActionForward, uplink: true}
